@@ -235,7 +235,8 @@ def dense_consistency(a, rhs, fam, attrs, max_steps=80, what="", sig_what=None):
             F[k] = np.asarray(rhs(np.float64(t[k]), y[k].copy()), dtype=np.float64)
         return F[k]
     steps = range(N) if N <= max_steps else sorted(set(np.linspace(0, N - 1, max_steps).astype(int).tolist()) | {N - 1, N - 2, max(N - 3, 0)})
-    for k in range(N + 1):
+    # (the order of the queries alternates with the number of steps: the first query after a run may be anywhere)
+    for k in (range(N + 1) if N % 2 == 0 else range(N, -1, -1)):
         got = np.asarray(sol(np.float64(t[k])), dtype=np.float64)
         if not np.array_equal(got, y[k]):
             out.append(V("grid_point", "{}sol(t[{}]={!r}) differs from the recorded state by {:.3e} ({} steps)".format(
